@@ -165,6 +165,16 @@ class StmtMixin(object):
       if shape is None:
         continue
       cands = [n for n in stmts if id(n) not in exact_nodes and self._stmt_shape(n) == shape]
+      if not cands and shape[0] == 'assign' and len(shape) == 2:
+        # x = ... folded into a tuple assignment  x, y, z = ...
+        def names(n):
+          out = set()
+          if isinstance(n, ast.Assign):
+            for t in n.targets:
+              for e in (t.elts if isinstance(t, (ast.Tuple, ast.List)) else [t]):
+                out.add(ast.unparse(e))
+          return out
+        cands = [n for n in stmts if id(n) not in exact_nodes and shape[1] in names(n)]
       if len(cands) == 1:
         amap.setdefault(id(cands[0]), []).append(g)
         drift.append('%s: anchor %r re-attached to %r (line %d)' % (spec.name, a, self._stmt_text(cands[0]), cands[0].lineno))
